@@ -340,6 +340,24 @@ def main():
         collect = catalog_stage(flat[0], 'collect')
         bases = catalog_stage(flat[1], 'bases')
         closure = closure_stage(flat[2])
+        # std::size_t mark = ++class_mark;   (or a plain declaration: every class draws a new mark before it reads one)
+        md = flat[3]
+        if not (md[0] == 'decl' and md[1] in ('std::size_t', 'auto', 'size_t') and len(md[2]) == 1
+                and md[2][0][1] in (None, ('num', 0), ('un', '++', ('id', 'class_mark')))):
+            raise mc.Unsupported('augment_classes (dedup): the mark is no longer declared as `std::size_t mark = ++class_mark;`: ' + mc.show(md))
+        markname = md[2][0][0]
+        pre = 'LNewMark' if md[2][0][1] == ('un', '++', ('id', 'class_mark')) else 'LSkip'
+        stages = {}
+        for nm, st in (('dedup', flat[4]), ('direct', flat[5]), ('derived', flat[6])):
+            lo = Lower(nm)
+            lo.mark = markname
+            if not (st[0] == 'rangefor' and st[2] == ('id', 'classes')):
+                raise mc.Unsupported('augment_classes (%s): no longer a loop over `classes`: %s' % (nm, mc.show(st)[:200]))
+            stages[nm] = lo.s(st)
+        cov = flat[7]
+        if not (cov[0] == 'rangefor' and isinstance(cov[1], str) and cov[2] == ('id', 'classes')
+                and body_of(cov[3]) == [('expr', ('call', ('id', 'calculate_covariant_classes'), [('id', cov[1])]))]):
+            raise mc.Unsupported('augment_classes: the last loop is no longer `for (auto& rtc : classes) calculate_covariant_classes(rtc);`')
     except mc.Unsupported as e:
         die(str(e))
     out = ('(* GENERATED by translators/lattice.py from %s - do not edit.\n'
@@ -350,7 +368,13 @@ def main():
            '(* the body of the second `for (auto& cr : Policy::classes)` *)\n'
            'Definition gen_bases : lstmt :=\n  %s.\n\n'
            '(* the body of `for (bool changed = true; changed;) { changed = false; ... }` *)\n'
-           'Definition gen_closure : lstmt :=\n  %s.\n' % (SRC, collect, bases, closure))
+           'Definition gen_closure : lstmt :=\n  %s.\n\n'
+           '(* `std::size_t mark = ++class_mark;` and the loop that removes duplicates and records the weight *)\n'
+           'Definition gen_dedup : lstmt :=\n  (LSeq %s\n  %s).\n\n'
+           '(* the loop that sorts the bases by weight and finds the direct ones *)\n'
+           'Definition gen_direct : lstmt :=\n  %s.\n\n'
+           '(* the loop that fills direct_derived *)\n'
+           'Definition gen_derived : lstmt :=\n  %s.\n' % (SRC, collect, bases, closure, pre, stages['dedup'], stages['direct'], stages['derived']))
     vlib.write_if_changed(os.path.join(vlib.COQ, 'Gen', 'GenLat.v'), out)
 
 
